@@ -1,6 +1,7 @@
 #!/usr/bin/env python3
 """print the markdown table of DESIGN.md §16 from /verif/seeded/*/meta.json"""
-import glob, json, os
+import glob, json, os, sys
+COMPACT = "--compact" in sys.argv
 rows = []
 for d in sorted(glob.glob("/verif/seeded/*")):
     try:
@@ -15,8 +16,8 @@ for d in sorted(glob.glob("/verif/seeded/*")):
     caught = ", ".join(c.get("caught_by", [])) or "MISSED"
     ran = ", ".join("%s→%s" % (k, "VIOLATION" if v["exit"] == 1 else "exit %d" % v["exit"]) for k, v in sorted(c.get("checks", {}).items()))
     for r in m.get("retrials", []):
-        ran += "; after strengthening (%s): %s" % (cut(r["after"], 120), ", ".join("%s→%s" % (k, "VIOLATION" if v["exit"] == 1 else "exit %d" % v["exit"]) for k, v in sorted(r["checks"].items())))
-    rows.append("| %s | %s | %s | %s | %s |" % (sid, m.get("property"), cut(summ, 260), cut(need, 200), ran))
+        ran += "; after strengthening (%s): %s" % (cut(r["after"], 70 if COMPACT else 200), ", ".join("%s→%s" % (k, "VIOLATION" if v["exit"] == 1 else "exit %d" % v["exit"]) for k, v in sorted(r["checks"].items())))
+    rows.append("| %s | %s | %s | %s | %s |" % (sid, m.get("property"), cut(summ, 150 if COMPACT else 400), cut(need, 110 if COMPACT else 300), ran))
 print("| seeded/ | property | change (compiles, 85 tests pass) | needs to manifest | checks run → result |")
 print("|---|---|---|---|---|")
 print("\n".join(rows))
